@@ -222,3 +222,12 @@ impl DevInputWriter {
   }
 }
 
+
+// Verification hook (no behaviour change): a writer on an existing file descriptor
+// (a pipe or memfd instead of /dev/uinput). Compiled only with --cfg ellbur_totalmapper_verif.
+#[cfg(ellbur_totalmapper_verif)]
+impl DevInputWriter {
+  pub fn verif_from_fd(fd: RawFd) -> DevInputWriter {
+    DevInputWriter { fd }
+  }
+}
